@@ -635,10 +635,15 @@ class Reaction(Object):
 
         # Make the genes aware that it is involved in this reaction
         for g in self._genes:
+            known = self in g._reaction
             self._associate_gene(g)
             # genes that were associated before stay associated when undoing
             if context and g not in old_genes:
                 context(partial(self._dissociate_gene, g))
+            elif context and not known:
+                # a reaction that had been removed from the model and is added
+                # again: only the gene had forgotten it
+                context(partial(g._reaction.discard, self))
 
         # make the old genes aware they are no longer involved in this reaction
         for g in old_genes.difference(new_genes):
